@@ -97,6 +97,111 @@ fn monotone(ctx: &Ctx, maxlen: usize) -> (u64, u64) {
     (streams, steps)
 }
 
+// ------------------------------------------------------------------------------------------------ entry points, boundary items
+
+/// The estimate of a set is the same whichever way its items enter (item by item, one slice, two slices, an item then a
+/// slice), also for items whose 64-bit hash is a boundary value (pre-hashed data through the no-op hasher: 0, 1, 2^64-1, ...),
+/// and a singleton is estimated as about one item.  All ordered selections of up to 3 items of an 8-item alphabet.
+fn entry_points(ctx: &Ctx) -> (u64, u64) {
+    use probminhash::nohasher::NoHashHasher;
+    let hashes: [u64; 8] = [0, 1, u64::MAX, u64::MAX - 1, 1 << 63, 1 << 32, 0xFFFF_FFFF, 12345];
+    let mut seqs: Vec<Vec<u64>> = Vec::new();
+    for a in 0..8 {
+        seqs.push(vec![a]);
+        for b in 0..8 {
+            if b != a {
+                seqs.push(vec![a, b]);
+                for c in 0..8 {
+                    if c != a && c != b {
+                        seqs.push(vec![a, b, c]);
+                    }
+                }
+            }
+        }
+    }
+    let mut runs = 0u64;
+    let mut distinct: BTreeSet<u64> = BTreeSet::new();
+    for (pname, p) in [("(1.001,256,20,65534)", SetSketchParams::new(1.001, 256, 20., 65534)), ("(2,64,20,62)", SetSketchParams::new(2.0, 64, 20., 62))] {
+        for nohash in [true, false] {
+            let mut reported = false;
+            for sq in &seqs {
+                // the no-op hasher reads the 8 bytes of a u64 big-endian
+                let items: Vec<u64> = sq.iter().map(|i| if nohash { hashes[*i as usize].swap_bytes() } else { hashes[*i as usize] }).collect();
+                let r = guarded_mut(|| -> Result<f64, String> {
+                    type Obs = (Vec<u16>, u64);
+                    let obs = |plan: &[(bool, &[u64])]| -> Result<Obs, String> {
+                        // plan: (as slice?, items)
+                        macro_rules! go {
+                            ($sk:expr) => {{
+                                let mut sk = $sk;
+                                for (as_slice, its) in plan {
+                                    if *as_slice {
+                                        sk.sketch_slice(its).map_err(|e| e.to_string())?;
+                                    } else {
+                                        for x in its.iter() {
+                                            sk.sketch(x).map_err(|e| e.to_string())?;
+                                        }
+                                    }
+                                }
+                                Ok((sk.get_signature().clone(), sk.get_cardinal_stats().0.to_bits()))
+                            }};
+                        }
+                        if nohash {
+                            go!(SetSketcher::<u16, u64, NoHashHasher>::new(p, BuildHasherDefault::<NoHashHasher>::default()))
+                        } else {
+                            go!(new_ss::<u16>(p))
+                        }
+                    };
+                    let reference = obs(&[(false, &items)])?;
+                    let mut plans: Vec<Vec<(bool, &[u64])>> = vec![vec![(true, &items[..])]];
+                    for cut in 1..items.len() {
+                        plans.push(vec![(true, &items[..cut]), (true, &items[cut..])]);
+                        plans.push(vec![(false, &items[..cut]), (true, &items[cut..])]);
+                        plans.push(vec![(true, &items[..cut]), (false, &items[cut..])]);
+                    }
+                    for plan in &plans {
+                        let o = obs(plan)?;
+                        if o != reference {
+                            return Err(format!(
+                                "items with hashes {:x?}: estimate {} through {:?} but {} item by item",
+                                sq.iter().map(|i| hashes[*i as usize]).collect::<Vec<_>>(),
+                                f64::from_bits(o.1),
+                                plan.iter().map(|(s, its)| format!("{}{}", if *s { "slice of " } else { "items x" }, its.len())).collect::<Vec<_>>(),
+                                f64::from_bits(reference.1)
+                            ));
+                        }
+                    }
+                    let est = f64::from_bits(reference.1);
+                    if items.len() == 1 && !(est > 0.4 && est < 2.5) {
+                        return Err(format!("the set of the single item with hash {:#x} is estimated at {} items", hashes[sq[0] as usize], est));
+                    }
+                    Ok(est)
+                });
+                runs += 1 + 3 * (sq.len() as u64 - 1) + 1;
+                let problem = match r {
+                    Ok(Ok(e)) => {
+                        distinct.insert(e.to_bits());
+                        None
+                    }
+                    Ok(Err(w)) => Some(w),
+                    Err(pn) => Some(format!("panic {}", pn)),
+                };
+                if let Some(w) = problem {
+                    if !reported {
+                        reported = true;
+                        ctx.violation(
+                            &format!("entry-points:{}", if nohash { "nohash" } else { "fnv" }),
+                            &format!("SetSketcher<u16> {} {}: {}", pname, if nohash { "[no-op hasher]" } else { "[Fnv]" }, w),
+                            json!({"kind": "entry"}),
+                        );
+                    }
+                }
+            }
+        }
+    }
+    (runs, distinct.len() as u64)
+}
+
 // ------------------------------------------------------------------------------------------------ accuracy
 
 #[derive(Clone, Debug)]
@@ -313,6 +418,8 @@ pub fn run(ctx: &Ctx) -> i32 {
     // ---- monotone
     let (streams, steps) = monotone(ctx, ctx.pick(5usize, 6));
     println!("C06 monotone: {} streams, {} steps", streams, steps);
+    let (entry_runs, entry_distinct) = entry_points(ctx);
+    println!("C06 entry points / boundary items: {} runs, {} distinct estimates", entry_runs, entry_distinct);
     // ---- parallel estimator: reduction-order model + real pools
     let par = parallel_model(ctx);
     for (k, w, c) in &par.findings {
@@ -374,8 +481,9 @@ pub fn run(ctx: &Ctx) -> i32 {
     let worst_bias = details.iter().map(|d| d["relative_bias"].as_f64().unwrap().abs() / d["limit_2rsd2"].as_f64().unwrap()).fold(0., f64::max);
     println!("C06 accuracy: {} configurations, {} sets; worst |bias|/(2 rsd^2) = {:.3}; worst parallel-vs-sequential relative difference {:.2e}", details.len(), sets, worst_bias, worst_par);
     let coverage = json!({
-        "evaluations": streams + par.real_runs + sets,
+        "evaluations": streams + par.real_runs + sets + entry_runs,
         "distinct_nontrivial": par.distinct_sums + details.len() as u64,
+        "entry_points": {"runs": entry_runs, "distinct_estimates": entry_distinct, "what": "all ordered selections of 1..3 items from 8 items (hashes 0, 1, 2^64-1, 2^64-2, 2^63, 2^32, 2^32-1, 12345 through the no-op hasher; the same integers through Fnv), 2 parameter sets: the estimate and registers are the same item by item, as one slice, as two slices, as items then a slice and as a slice then items; a singleton is estimated between 0.4 and 2.5"},
         "rule": "monotone: every stream of length 5 (6) over {6 items, a burst of 12 items, merges with two different fixed sketches} for 5 parameter sets, estimate non-decreasing after every step (exact); parallel estimator: for m<=9 (11) and 3 bases, ALL Catalan(m-1) bracketings of the sum of the m register terms are enumerated (the reduction orders a rayon pool can realise), every one must agree with the sequential estimate within m*2^-52 relative, and the real get_cardinal_estimate run under pools of 1,2,3,4,8,16 threads must be a member of the modelled outcome set (trace validation); accuracy: n in {1,2,10,1e3,1e5,(1e6)} x m in {64,256,(1024,4096)} x 3 (b,q) x u16/u32 x with/without repetition, T disjoint sets each (T>=36m where the item budget allows): |mean(n^/n)-1| <= 2 rsd^2 + 6 se, |sd/rsd-1| <= 0.15 + 6 se, confirmed on a 4x larger fresh block; distinct = distinct bracketing sums + configurations",
         "samples": [
             {"monotone_stream": [0, 6, 3, 7, 3], "meaning": "item 1, burst, item 4, merge, item 4"},
